@@ -22,6 +22,7 @@ import AcVerif.MemUsage
 import AcVerif.NfaMemCompile
 import AcVerif.TopLevel
 import AcVerif.TopLevel2
+import AcVerif.StreamResume
 import AcVerif.Compiler
 import AcVerif.DfaModel
 import AcVerif.DfaIds
@@ -201,7 +202,13 @@ def answer (r : Req) (c : Cfg) : String :=
         match gate false with
         | .error e => s!"{e.name} emptyreads=0"
         | .ok () =>
-          if r.op == "stream" then
+          if r.op == "stream" && r.flag "resume" then
+            -- the caller keeps pulling after the error item of a transient read fault (`StreamResume.lean`)
+            match streamFindT m.A rdr spare (constsOf r).bufferMinFactor (constsOf r).bufferDefaultCap with
+            | .error e => s!"{e.name} emptyreads=0"
+            | .ok (items, er) =>
+              s!"{fmtList (items.map fun | some x => fmtMat x | none => "io-err")} emptyreads={er}"
+          else if r.op == "stream" then
             match streamFind m.A rdr spare (constsOf r).bufferMinFactor (constsOf r).bufferDefaultCap with
             | .error e => s!"{e.name} emptyreads=0"
             | .ok (ms, err, er) =>
